@@ -8,23 +8,62 @@ import (
 	"github.com/grailbio/bigslice/verifrt/vsched"
 )
 
-func AddInt32(p *int32, d int32) int32    { vsched.YieldOn("atomic", uintptr(unsafe.Pointer(p))); return atomic.AddInt32(p, d) }
-func AddInt64(p *int64, d int64) int64    { vsched.YieldOn("atomic", uintptr(unsafe.Pointer(p))); return atomic.AddInt64(p, d) }
-func AddUint32(p *uint32, d uint32) uint32 { vsched.YieldOn("atomic", uintptr(unsafe.Pointer(p))); return atomic.AddUint32(p, d) }
-func AddUint64(p *uint64, d uint64) uint64 { vsched.YieldOn("atomic", uintptr(unsafe.Pointer(p))); return atomic.AddUint64(p, d) }
-func LoadInt32(p *int32) int32            { vsched.YieldOn("atomic", uintptr(unsafe.Pointer(p))); return atomic.LoadInt32(p) }
-func LoadInt64(p *int64) int64            { vsched.YieldOn("atomic", uintptr(unsafe.Pointer(p))); return atomic.LoadInt64(p) }
-func LoadUint32(p *uint32) uint32         { vsched.YieldOn("atomic", uintptr(unsafe.Pointer(p))); return atomic.LoadUint32(p) }
-func LoadUint64(p *uint64) uint64         { vsched.YieldOn("atomic", uintptr(unsafe.Pointer(p))); return atomic.LoadUint64(p) }
-func StoreInt32(p *int32, v int32)        { vsched.YieldOn("atomic", uintptr(unsafe.Pointer(p))); atomic.StoreInt32(p, v) }
-func StoreInt64(p *int64, v int64)        { vsched.YieldOn("atomic", uintptr(unsafe.Pointer(p))); atomic.StoreInt64(p, v) }
-func StoreUint32(p *uint32, v uint32)     { vsched.YieldOn("atomic", uintptr(unsafe.Pointer(p))); atomic.StoreUint32(p, v) }
-func StoreUint64(p *uint64, v uint64)     { vsched.YieldOn("atomic", uintptr(unsafe.Pointer(p))); atomic.StoreUint64(p, v) }
+func AddInt32(p *int32, d int32) int32 {
+	vsched.YieldOn("atomic", uintptr(unsafe.Pointer(p)))
+	return atomic.AddInt32(p, d)
+}
+func AddInt64(p *int64, d int64) int64 {
+	vsched.YieldOn("atomic", uintptr(unsafe.Pointer(p)))
+	return atomic.AddInt64(p, d)
+}
+func AddUint32(p *uint32, d uint32) uint32 {
+	vsched.YieldOn("atomic", uintptr(unsafe.Pointer(p)))
+	return atomic.AddUint32(p, d)
+}
+func AddUint64(p *uint64, d uint64) uint64 {
+	vsched.YieldOn("atomic", uintptr(unsafe.Pointer(p)))
+	return atomic.AddUint64(p, d)
+}
+func LoadInt32(p *int32) int32 {
+	vsched.YieldOn("atomic", uintptr(unsafe.Pointer(p)))
+	return atomic.LoadInt32(p)
+}
+func LoadInt64(p *int64) int64 {
+	vsched.YieldOn("atomic", uintptr(unsafe.Pointer(p)))
+	return atomic.LoadInt64(p)
+}
+func LoadUint32(p *uint32) uint32 {
+	vsched.YieldOn("atomic", uintptr(unsafe.Pointer(p)))
+	return atomic.LoadUint32(p)
+}
+func LoadUint64(p *uint64) uint64 {
+	vsched.YieldOn("atomic", uintptr(unsafe.Pointer(p)))
+	return atomic.LoadUint64(p)
+}
+func StoreInt32(p *int32, v int32) {
+	vsched.YieldOn("atomic", uintptr(unsafe.Pointer(p)))
+	atomic.StoreInt32(p, v)
+}
+func StoreInt64(p *int64, v int64) {
+	vsched.YieldOn("atomic", uintptr(unsafe.Pointer(p)))
+	atomic.StoreInt64(p, v)
+}
+func StoreUint32(p *uint32, v uint32) {
+	vsched.YieldOn("atomic", uintptr(unsafe.Pointer(p)))
+	atomic.StoreUint32(p, v)
+}
+func StoreUint64(p *uint64, v uint64) {
+	vsched.YieldOn("atomic", uintptr(unsafe.Pointer(p)))
+	atomic.StoreUint64(p, v)
+}
 func LoadPointer(p *unsafe.Pointer) unsafe.Pointer {
 	vsched.YieldOn("atomic", uintptr(unsafe.Pointer(p)))
 	return atomic.LoadPointer(p)
 }
-func StorePointer(p *unsafe.Pointer, v unsafe.Pointer) { vsched.YieldOn("atomic", uintptr(unsafe.Pointer(p))); atomic.StorePointer(p, v) }
+func StorePointer(p *unsafe.Pointer, v unsafe.Pointer) {
+	vsched.YieldOn("atomic", uintptr(unsafe.Pointer(p)))
+	atomic.StorePointer(p, v)
+}
 func CompareAndSwapPointer(p *unsafe.Pointer, o, n unsafe.Pointer) bool {
 	vsched.YieldOn("atomic", uintptr(unsafe.Pointer(p)))
 	return atomic.CompareAndSwapPointer(p, o, n)
